@@ -4837,6 +4837,9 @@ def c14_from_file_wiring():
     def go():
         out = []
         cases = [('new.folded', ['# hello\n', '#  second  \n', '3 4 folded "A b" "C"\n', 'DATA LINE \n', 'MASK LINE\n', ''], dict(shape=(3, 4), folded=True, ids=['A b', 'C'], mask=True, comments=['hello', 'second'])),
+                 # labels are what stands between the quotes, verbatim: leading / trailing blanks and an all-blank label included
+                 ('new.labels-with-outer-blanks', ['3 4 unfolded " north" "south  "\n', 'DATA LINE\n', 'MASK LINE\n', ''], dict(shape=(3, 4), folded=False, ids=[' north', 'south  '], mask=True, comments=[])),
+                 ('new.blank-label', ['3 4 folded " " "x"\n', 'DATA LINE\n', 'MASK LINE\n', ''], dict(shape=(3, 4), folded=True, ids=[' ', 'x'], mask=True, comments=[])),
                  ('new.unfolded.nolabels', ['3 4 unfolded\n', 'DATA LINE\n', 'MASK LINE\n', ''], dict(shape=(3, 4), folded=False, ids=None, mask=True, comments=[])),
                  ('old', ['# c\n', '3 4\n', 'DATA LINE\n', ''], dict(shape=(3, 4), folded=False, ids=None, mask=False, comments=['c']))]
         for gz in (False, True):
